@@ -77,9 +77,18 @@ func (e *Engine) Run(env *core.Env, run int, res *core.Result) *core.Violation {
 	env.J.Done()
 	sig, msg := judge(def, sc, rr, env)
 	account(def, sc, rr, res, run)
+	if d := os.Getenv("VERIF_DUMPTRACE"); d != "" {
+		os.WriteFile(fmt.Sprintf("%s/run%d.trace", d, run), []byte(strings.Join(rr.Trace, "\n")+"\n"), 0o644)
+	}
 	if f := os.Getenv("VERIF_DETLOG"); f != "" {
 		if fh, err := os.OpenFile(f, os.O_APPEND|os.O_CREATE|os.O_WRONLY, 0o644); err == nil {
-			fmt.Fprintf(fh, "run=%d hash=%016x sig=%s\n", run, rr.TraceHash, sig)
+			if rr.MapOrderDependent || sc.Kind == "C19" {
+				// SPOP-like choices, Pub/Sub fan-out order and the order in which a KEYS scan
+				// competes for stripes follow Go's map iteration order, which no seed controls
+				fmt.Fprintf(fh, "run=%d hash=(depends on map iteration order) sig=%s\n", run, sig)
+			} else {
+				fmt.Fprintf(fh, "run=%d hash=%016x sig=%s\n", run, rr.TraceHash, sig)
+			}
 			fh.Close()
 		}
 	}
@@ -92,6 +101,11 @@ func (e *Engine) Run(env *core.Env, run int, res *core.Result) *core.Violation {
 	c.Message = msg
 	if def.ReplayExact != nil {
 		c.ReplayExact = def.ReplayExact(sc)
+	}
+	if rr.MapOrderDependent || sc.Kind == "C19" {
+		// outcome may depend on Go map iteration order inside the server
+		// (random-choice commands, KEYS scan order, Pub/Sub fan-out order)
+		c.ReplayExact = false
 	}
 	c.Trace = tail(rr.Trace, 80)
 	return &core.Violation{Signature: sig, Message: msg, Case: c}
